@@ -1,8 +1,16 @@
 import Srtla.Model.Conn
 import Srtla.Lemmas.Log
 import Srtla.Lemmas.Conn
+import Srtla.Lemmas.TrackerTie
 /-!
 # C05 — a NAK is charged once, and only to a link that carried the packet
+
+Single NAK: `C05_charge_exact`, `C05_at_most_one`, `C05_tracker_exclusive`, `C05_repeat_noop`,
+`C05_unknown_noop`; the ring: `C05_tracker_spec`.  NAK lists incl. duplicates: `C05_second_nak_noop`,
+`C05_nak_list_tracker_once`, `C05_nak_list_charges_le_holders`.  Histories with link removal:
+`C05_tracker_ids_present`, `C05_hit_is_present`, `C05_tracker_exclusive_history`.  The shell
+(`Model/Sys.lean`): `C05_tracker_records_unique_carrier`, `C05_tracker_written_only_by_routing`,
+`C05_sys_remembered_ids_present` (lemmas in `Lemmas/TrackerTie.lean`).
 -/
 namespace Srtla.Props.C05
 open Srtla.Conn Srtla.Gen
@@ -257,5 +265,564 @@ example :
     t.get 100 2000 = none ∧ t.get (100 + 16384) 6500 = some 9 ∧ t.get (100 + 16384) 6501 = none ∧
     (applyT t (.remove 9)).get (100 + 16384) 2000 = none := by
   decide
+
+
+/-! ## Non-vacuity of the single-NAK theorems -/
+
+/-- Link 1 (id 11) holds 5 and 7; link 2 (id 22) holds a probe copy of 7; window 1050 on link 1. -/
+def exA : Conn := { connId := 11, window := 1050, inFlight := 2, log := [(5, 100), (7, 110)] }
+def exB : Conn := { connId := 22, window := 20000, inFlight := 1, log := [(7, 115)] }
+/-- The tracker remembers link 2 (id 22) as the carrier of the unique copy of 7. -/
+def exTrk : Tracker := Tracker.empty.insert 7 22 115
+
+theorem exA_inv : LogInv exA := ⟨by decide, by decide, by decide⟩
+theorem exB_inv : LogInv exB := ⟨by decide, by decide, by decide⟩
+
+/-- `C05_charge_exact` is not vacuous: its hypotheses hold for `exA` and number 7, and the charge is
+one loss count, window 1050 → 1000 (floored: not 950), number 7 gone, in-flight 2 → 1. -/
+example :
+    (7 : Int) ∈ exA.keys ∧ LogInv exA ∧ 1000 ≤ exA.window ∧
+    (exA.nak 7 200).1.cong.nakCount = 1 ∧ (exA.nak 7 200).1.window = 1000 ∧
+    (exA.nak 7 200).1.keys = [5] ∧ (exA.nak 7 200).1.inFlight = 1 :=
+  ⟨by decide, exA_inv, by decide, by decide, by decide, by decide, by decide⟩
+
+/-- `C05_at_most_one` / `C05_tracker_exclusive` are not vacuous: both links hold 7, the tracker names
+link 2 (position 1): the NAK is charged to position 1 and link 1 — first in scan order — is untouched;
+once the entry has expired (age 5001) the fallback scan charges position 0 instead. -/
+example :
+    exTrk.get 7 200 = some 22 ∧ [exA, exB].findIdx? (·.connId == 22) = some 1 ∧
+    (attributeNak [exA, exB] exTrk 7 200).2 = some 1 ∧
+    (attributeNak [exA, exB] exTrk 7 200).1[0]? = some exA ∧
+    ((attributeNak [exA, exB] exTrk 7 200).1.map (·.keys)) = [[5, 7], []] ∧
+    (attributeNak [exA, exB] exTrk 7 5116).2 = some 0 := by
+  decide
+
+/-! ## NAK lists, duplicates included -/
+
+/-- The NAK loop of `process_connection_events` (one `attribute_nak` per listed number, same tracker,
+same clock), recording every charge as `(NAK number, index of the charged link)`. -/
+def nakFold (trk : Tracker) (now : Nat) : Links → List Nat → Links × List (Nat × Nat)
+  | ls, [] => (ls, [])
+  | ls, n :: rest =>
+    ((nakFold trk now (attributeNak ls trk n now).1 rest).1,
+      (match (attributeNak ls trk n now).2 with
+        | some j => [(n, j)]
+        | none => []) ++ (nakFold trk now (attributeNak ls trk n now).1 rest).2)
+
+/-- `nakFold` is the model's loop (`Model/Sys.lean` `processConnectionEvents`, `cs3`). -/
+theorem nakFold_links (trk : Tracker) (now : Nat) (ls : Links) (naks : List Nat) :
+    (nakFold trk now ls naks).1 = naks.foldl (fun cs n => (attributeNak cs trk n now).1) ls := by
+  induction naks generalizing ls with
+  | nil => rfl
+  | cons n rest ih => simp only [nakFold, List.foldl_cons, ih]
+
+theorem findIdx_attributeNak (ls : Links) (trk : Tracker) (n now cid : Nat) :
+    (attributeNak ls trk n now).1.findIdx? (·.connId == cid) = ls.findIdx? (·.connId == cid) := by
+  rw [← findIdx_ids, ← findIdx_ids, idsOf_attributeNak]
+
+/-- Sets only shrink under `attribute_nak`, position by position. -/
+theorem attributeNak_keys_subset (ls : Links) (trk : Tracker) (n now j : Nat) (c c' : Conn)
+    (hc : ls[j]? = some c) (hc' : (attributeNak ls trk n now).1[j]? = some c') :
+    ∀ x ∈ c'.keys, x ∈ c.keys := by
+  rcases C05_at_most_one ls trk n now with ⟨_, h2⟩ | ⟨i, d, _, hd, _, h4⟩
+  · rw [h2, hc] at hc'; cases hc'; exact fun _ h => h
+  · rw [h4] at hc'
+    simp only [updateAt, List.getElem?_mapIdx, hc, Option.map_some, Option.some.injEq] at hc'
+    split at hc'
+    · rename_i hji; subst hji
+      rw [hd] at hc; cases hc
+      subst hc'
+      intro x hx
+      rw [nak_keys] at hx
+      exact (mem_specErase.mp hx).1
+    · subst hc'; exact fun _ h => h
+
+/-- After a charge the charged link no longer holds the number. -/
+theorem attributeNak_charged_gone (ls : Links) (trk : Tracker) (n now j : Nat)
+    (h : (attributeNak ls trk n now).2 = some j) :
+    ∃ c', (attributeNak ls trk n now).1[j]? = some c' ∧ toI32 n ∉ c'.keys := by
+  rcases C05_at_most_one ls trk n now with ⟨h1, _⟩ | ⟨i, d, h1, hd, _, h4⟩
+  · rw [h1] at h; cases h
+  · rw [h1] at h; cases h
+    refine ⟨(d.nak (toI32 n) now).1, ?_, ?_⟩
+    · rw [h4]; simp [updateAt, List.getElem?_mapIdx, hd]
+    · rw [nak_keys]; exact not_mem_specErase _ _
+
+/-- **The second NAK of the same number is a no-op while the tracker remembers.**  If at both times
+the tracker maps `n` to the same present link, then `attribute_nak` applied twice equals
+`attribute_nak` applied once: the repeat charges nobody and changes no link — it does not fall
+through to another holder (a probe copy on another link stays untouched). -/
+theorem C05_second_nak_noop (ls : Links) (trk : Tracker) (n now now' cid pos : Nat)
+    (hget : trk.get n now = some cid) (hget' : trk.get n now' = some cid)
+    (hpos : ls.findIdx? (·.connId == cid) = some pos) :
+    attributeNak (attributeNak ls trk n now).1 trk n now' = ((attributeNak ls trk n now).1, none) := by
+  have hpos' : (attributeNak ls trk n now).1.findIdx? (·.connId == cid) = some pos := by
+    rw [findIdx_attributeNak]; exact hpos
+  obtain ⟨hlt, -, -⟩ := List.findIdx?_eq_some_iff_getElem.mp hpos'
+  have hc' : (attributeNak ls trk n now).1[pos]? = some (attributeNak ls trk n now).1[pos] :=
+    List.getElem?_eq_getElem hlt
+  apply C05_repeat_noop _ trk n now' cid pos _ hget' hpos' hc'
+  rcases C05_tracker_exclusive ls trk n now cid pos hget hpos with h | h
+  · -- nobody was charged: the remembered link did not hold it in the first place
+    rcases C05_at_most_one ls trk n now with ⟨_, h2⟩ | ⟨j, d, h1, _, _, _⟩
+    · obtain ⟨hlt0, -, -⟩ := List.findIdx?_eq_some_iff_getElem.mp hpos
+      intro hm
+      have hc0 : ls[pos]? = some ls[pos] := List.getElem?_eq_getElem hlt0
+      have : (attributeNak ls trk n now).2 = some pos := by
+        unfold attributeNak
+        simp only [hget, hpos, hc0]
+        have hm' : toI32 n ∈ (ls[pos]).keys := by
+          have e : (attributeNak ls trk n now).1[pos] = ls[pos] := by simp only [h2]
+          rw [← e]; exact hm
+        rw [if_pos ((nak_found _ _ now).mpr hm')]
+      rw [h] at this; cases this
+    · rw [h1] at h; cases h
+  · obtain ⟨c', hc1, hn⟩ := attributeNak_charged_gone ls trk n now pos h
+    rw [hc'] at hc1; cases hc1; exact hn
+
+/-- While the remembered link does not hold the number, no NAK of a whole list is charged for it. -/
+theorem nakFold_none_for (trk : Tracker) (now n cid pos : Nat)
+    (hget : trk.get n now = some cid) (naks : List Nat) :
+    ∀ (ls : Links) (c : Conn), ls.findIdx? (·.connId == cid) = some pos → ls[pos]? = some c →
+      toI32 n ∉ c.keys → ∀ x ∈ (nakFold trk now ls naks).2, x.1 ≠ n := by
+  induction naks with
+  | nil => intro ls c _ _ _ x hx; simp [nakFold] at hx
+  | cons m rest ih =>
+    intro ls c hpos hc hn x hx
+    simp only [nakFold, List.mem_append] at hx
+    have hpos1 : (attributeNak ls trk m now).1.findIdx? (·.connId == cid) = some pos := by
+      rw [findIdx_attributeNak]; exact hpos
+    obtain ⟨hlt, -, -⟩ := List.findIdx?_eq_some_iff_getElem.mp hpos1
+    have hc1 : (attributeNak ls trk m now).1[pos]? = some (attributeNak ls trk m now).1[pos] :=
+      List.getElem?_eq_getElem hlt
+    have hn1 : toI32 n ∉ ((attributeNak ls trk m now).1[pos]).keys := fun hm =>
+      hn (attributeNak_keys_subset ls trk m now pos c _ hc hc1 _ hm)
+    rcases hx with hx | hx
+    · by_cases hmn : m = n
+      · subst hmn
+        rw [C05_repeat_noop ls trk m now cid pos c hget hpos hc hn] at hx
+        simp at hx
+      · split at hx
+        · simp only [List.mem_singleton] at hx; subst hx; exact hmn
+        · simp at hx
+    · exact ih _ _ hpos1 hc1 hn1 x hx
+
+/-- **A whole NAK list, duplicates and ranges included, while the tracker remembers.**  Run the NAK
+loop of `process_connection_events` over ANY list of numbers.  For every number `n` that the tracker
+maps to a present link (position `pos`): every charge made for `n` anywhere in the loop is to `pos`,
+and there is at most ONE such charge however often `n` is repeated in the list — the total charged
+for a distinct number is at most one link, once. -/
+theorem C05_nak_list_tracker_once (trk : Tracker) (now n cid pos : Nat)
+    (hget : trk.get n now = some cid) (naks : List Nat) :
+    ∀ (ls : Links), ls.findIdx? (·.connId == cid) = some pos →
+      (∀ x ∈ (nakFold trk now ls naks).2, x.1 = n → x.2 = pos) ∧
+      ((nakFold trk now ls naks).2.filter (fun x => x.1 == n)).length ≤ 1 := by
+  induction naks with
+  | nil => intro ls _; simp [nakFold]
+  | cons m rest ih =>
+    intro ls hpos
+    have hpos1 : (attributeNak ls trk m now).1.findIdx? (·.connId == cid) = some pos := by
+      rw [findIdx_attributeNak]; exact hpos
+    by_cases hmn : m = n
+    · subst hmn
+      rcases C05_tracker_exclusive ls trk m now cid pos hget hpos with h | h
+      · -- no charge at the head: recurse
+        obtain ⟨i1, i2⟩ := ih _ hpos1
+        simp only [nakFold, h, List.nil_append]
+        exact ⟨i1, i2⟩
+      · -- charged to `pos`; afterwards `pos` does not hold it, so no further charge for `m`
+        obtain ⟨c', hc1, hn⟩ := attributeNak_charged_gone ls trk m now pos h
+        have hnone := nakFold_none_for trk now m cid pos hget rest _ c' hpos1 hc1 hn
+        simp only [nakFold, h]
+        refine ⟨?_, ?_⟩
+        · intro x hx hxm
+          simp only [List.singleton_append, List.mem_cons] at hx
+          rcases hx with rfl | hx
+          · rfl
+          · exact absurd hxm (hnone x hx)
+        · have : ((nakFold trk now (attributeNak ls trk m now).1 rest).2.filter (fun x => x.1 == m)) = [] := by
+            apply List.filter_eq_nil_iff.mpr
+            intro x hx
+            simpa using hnone x hx
+          simp [List.filter_cons, this]
+    · obtain ⟨i1, i2⟩ := ih _ hpos1
+      simp only [nakFold]
+      refine ⟨?_, ?_⟩
+      · intro x hx hxn
+        rcases List.mem_append.mp hx with hx | hx
+        · split at hx
+          · simp only [List.mem_singleton] at hx; subst hx; exact absurd hxn hmn
+          · simp at hx
+        · exact i1 x hx hxn
+      · rw [List.filter_append]
+        have : (List.filter (fun x => x.1 == n)
+            (match (attributeNak ls trk m now).2 with | some j => [(m, j)] | none => [])) = [] := by
+          split <;> simp [hmn]
+        rw [this]; exact i2
+
+/-! ### Without the tracker: at most one charge per link that held the number -/
+
+/-- Number of links holding `s`. -/
+def holders (ls : Links) (s : Int) : Nat := ls.countP (fun c => decide (s ∈ c.keys))
+
+theorem holders_updateAt_le (ls : Links) (j : Nat) (c c' : Conn) (s : Int) (hc : ls[j]? = some c)
+    (hsub : ∀ x ∈ c'.keys, x ∈ c.keys) :
+    holders (updateAt ls j (fun _ => c')) s ≤ holders ls s ∧
+    (s ∈ c.keys → s ∉ c'.keys → holders (updateAt ls j (fun _ => c')) s + 1 = holders ls s) := by
+  induction ls generalizing j with
+  | nil => simp at hc
+  | cons d rest ih =>
+    cases j with
+    | zero =>
+      simp only [List.getElem?_cons_zero, Option.some.injEq] at hc
+      subst hc
+      have e : updateAt (d :: rest) 0 (fun _ => c') = c' :: rest := by
+        simp only [updateAt, List.mapIdx_cons, if_true]
+        congr 1
+        apply List.ext_getElem?
+        intro k
+        simp only [List.getElem?_mapIdx]
+        cases rest[k]? <;> simp
+      rw [e]
+      simp only [holders, List.countP_cons]
+      refine ⟨?_, ?_⟩
+      · by_cases h1 : s ∈ c'.keys
+        · rw [if_pos (decide_eq_true h1), if_pos (decide_eq_true (hsub s h1))]
+          exact Nat.le_refl _
+        · rw [if_neg (by rw [decide_eq_true_iff]; exact h1)]; split <;> omega
+      · intro h1 h2
+        rw [if_pos (decide_eq_true h1), if_neg (by rw [decide_eq_true_iff]; exact h2)]
+    | succ j =>
+      simp only [List.getElem?_cons_succ] at hc
+      have e : updateAt (d :: rest) (j + 1) (fun _ => c') = d :: updateAt rest j (fun _ => c') := by
+        simp only [updateAt, List.mapIdx_cons]
+        simp
+      rw [e]
+      obtain ⟨i1, i2⟩ := ih j hc
+      simp only [holders, List.countP_cons] at i1 i2 ⊢
+      refine ⟨by omega, fun h1 h2 => ?_⟩
+      have := i2 h1 h2
+      omega
+
+/-- One `attribute_nak`: the holder count of EVERY number can only drop, and a charge removes exactly
+one holder of the NAKed number. -/
+theorem holders_attributeNak (ls : Links) (trk : Tracker) (n now : Nat) (s : Int) :
+    holders (attributeNak ls trk n now).1 s ≤ holders ls s ∧
+    ((attributeNak ls trk n now).2 ≠ none →
+      holders (attributeNak ls trk n now).1 (toI32 n) + 1 = holders ls (toI32 n)) := by
+  rcases C05_at_most_one ls trk n now with ⟨h1, h2⟩ | ⟨j, c, h1, hc, hm, h4⟩
+  · rw [h2]; exact ⟨Nat.le_refl _, fun h => absurd h1 h⟩
+  · rw [h4]
+    have hsub : ∀ x ∈ (c.nak (toI32 n) now).1.keys, x ∈ c.keys := by
+      intro x hx; rw [nak_keys] at hx; exact (mem_specErase.mp hx).1
+    refine ⟨(holders_updateAt_le ls j c _ s hc hsub).1, fun _ => ?_⟩
+    exact (holders_updateAt_le ls j c _ (toI32 n) hc hsub).2 hm
+      (by rw [nak_keys]; exact not_mem_specErase _ _)
+
+/-- **Any NAK list, no tracker assumption** (expired, displaced or purged entries included): the
+number of charges made for sequence number `s` over the whole loop is at most the number of links
+that held `s` when the loop started — a link is charged at most once per packet it had outstanding,
+and a number nobody holds is never charged, however often it is repeated. -/
+theorem C05_nak_list_charges_le_holders (trk : Tracker) (now : Nat) (s : Int) (naks : List Nat) :
+    ∀ ls : Links,
+      ((nakFold trk now ls naks).2.filter (fun x => toI32 x.1 == s)).length +
+        holders (nakFold trk now ls naks).1 s ≤ holders ls s := by
+  induction naks with
+  | nil => intro ls; simp [nakFold]
+  | cons m rest ih =>
+    intro ls
+    have i := ih (attributeNak ls trk m now).1
+    obtain ⟨h1, h2⟩ := holders_attributeNak ls trk m now s
+    simp only [nakFold, List.filter_append, List.length_append]
+    cases hr : (attributeNak ls trk m now).2 with
+    | none => simp only [List.filter_nil, List.length_nil]; omega
+    | some j =>
+      by_cases hms : toI32 m = s
+      · have := h2 (by rw [hr]; simp)
+        rw [hms] at this
+        simp [hms]; omega
+      · simp [hms]; omega
+
+/-- The list theorems are not vacuous: the NAK list `[7, 7, 5, 7]` at a time the tracker remembers link
+2 for 7: one charge for 7 (to position 1), one for 5 (fallback scan, position 0), the repeats of 7 do
+nothing and link 1 keeps its copy of 7.  After expiry the same list charges 7 twice — once per holder. -/
+example :
+    (nakFold exTrk 200 [exA, exB] [7, 7, 5, 7]).2 = [(7, 1), (5, 0)] ∧
+    ((nakFold exTrk 200 [exA, exB] [7, 7, 5, 7]).1.map (·.keys)) = [[7], []] ∧
+    (nakFold exTrk 5116 [exA, exB] [7, 7, 5, 7]).2 = [(7, 0), (7, 1), (5, 0)] ∧
+    holders [exA, exB] 7 = 2 := by
+  decide
+
+/-! ## Remembered ids are present ids (discharges `hpos`) -/
+
+/-- Every id the ring remembers belongs to a present link (or the slot is empty: id 0). -/
+def TrkSub (ls : Links) (trk : Tracker) : Prop :=
+  ∀ i, (trk.ent i).connId = 0 ∨ (trk.ent i).connId ∈ idsOf ls
+
+/-- Histories of the sender's link table and tracker: routing a packet over link `i` (the tracker
+insert of `forward_via_connection` with that link's id, and the registration), anything that changes
+links without changing their ids (`C05_link_events_keep_ids`: every ACK/NAK/reset event does), a
+reload that drops the links failing `keep` and purges their ids from the ring
+(`apply_connection_changes` + `remove_connection`), and a reload that appends a link. -/
+inductive HOp where
+  | route (i seq ts : Nat)
+  | links (f : Links → Links)
+  | remove (keep : Conn → Bool)
+  | add (c : Conn)
+
+def hwf : HOp → Prop
+  | .links f => ∀ ls, idsOf (f ls) = idsOf ls
+  | _ => True
+
+def purge (trk : Tracker) (gone : Links) : Tracker :=
+  gone.foldl (fun t c => t.removeConnection c.connId) trk
+
+def hstep (s : Links × Tracker) : HOp → Links × Tracker
+  | .route i seq ts =>
+    match s.1[i]? with
+    | some c => (updateAt s.1 i (·.register (toI32 seq) ts), s.2.insert seq c.connId ts)
+    | none => s
+  | .links f => (f s.1, s.2)
+  | .remove keep => (s.1.filter keep, purge s.2 (s.1.filter (fun c => !keep c)))
+  | .add c => (s.1 ++ [c], s.2)
+
+/-- The link-level events of the model keep every link's id (so they are admissible `HOp.links`). -/
+theorem C05_link_events_keep_ids :
+    (∀ i s t, hwf (.links fun ls => updateAt ls i (·.register s t))) ∧
+    (∀ a now, hwf (.links fun ls => evSrtAck ls a now)) ∧
+    (∀ idx s cl now, hwf (.links fun ls => evSrtlaAck ls idx s cl now)) ∧
+    (∀ trk n now, hwf (.links fun ls => (attributeNak ls trk n now).1)) ∧
+    (∀ trk now naks, hwf (.links fun ls => (nakFold trk now ls naks).1)) ∧
+    (∀ i now, hwf (.links fun ls => updateAt ls i (·.markForRecovery)) ∧
+      hwf (.links fun ls => updateAt ls i (·.resetForReconnect)) ∧
+      hwf (.links fun ls => updateAt ls i (·.clearPreRegistration now))) := by
+  refine ⟨fun i s t ls => idsOf_updateAt _ _ _ (fun c _ => rfl),
+    fun a now ls => idsOf_map _ _ (fun c => connId_srtAck c a now),
+    fun idx s cl now ls => idsOf_evSrtlaAck ls idx s cl now,
+    fun trk n now ls => idsOf_attributeNak ls trk n now, ?_, fun i now => ⟨?_, ?_, ?_⟩⟩
+  · intro trk now naks ls
+    induction naks generalizing ls with
+    | nil => rfl
+    | cons n rest ih => simp only [nakFold]; rw [ih, idsOf_attributeNak]
+  · intro ls; exact idsOf_updateAt _ _ _ (fun c _ => rfl)
+  · intro ls; exact idsOf_updateAt _ _ _ (fun c _ => rfl)
+  · intro ls; exact idsOf_updateAt _ _ _ (fun c _ => rfl)
+
+theorem purge_ent (gone : Links) : ∀ (trk : Tracker) (i : Nat),
+    ((purge trk gone).ent i).connId = 0 ∨
+    ((purge trk gone).ent i = trk.ent i ∧ (trk.ent i).connId ∉ idsOf gone) := by
+  induction gone with
+  | nil => intro trk i; right; exact ⟨rfl, by simp [idsOf]⟩
+  | cons c rest ih =>
+    intro trk i
+    simp only [purge, List.foldl_cons] at ih ⊢
+    have hrc : (trk.removeConnection c.connId).ent i =
+        if (trk.ent i).connId = c.connId then {} else trk.ent i := rfl
+    rcases ih (trk.removeConnection c.connId) i with h | ⟨h1, h2⟩
+    · exact Or.inl h
+    · rw [hrc] at h1 h2
+      by_cases hc : (trk.ent i).connId = c.connId
+      · left
+        rw [h1, if_pos hc]
+      · right
+        rw [if_neg hc] at h1 h2
+        refine ⟨h1, ?_⟩
+        simp only [idsOf, List.map_cons, List.mem_cons, not_or]
+        exact ⟨hc, h2⟩
+
+theorem trkSub_step (s : Links × Tracker) (op : HOp) (h : TrkSub s.1 s.2) (hw : hwf op) :
+    TrkSub (hstep s op).1 (hstep s op).2 := by
+  cases op with
+  | route i seq ts =>
+    simp only [hstep]
+    cases hc : s.1[i]? with
+    | none => exact h
+    | some c =>
+      intro sl
+      dsimp only
+      rw [idsOf_updateAt s.1 i (·.register (toI32 seq) ts) (fun c _ => rfl)]
+      simp only [Tracker.insert]
+      split
+      · right
+        simp only [idsOf, List.mem_map]
+        exact ⟨c, List.mem_of_getElem? hc, rfl⟩
+      · exact h sl
+  | links f =>
+    intro sl
+    simp only [hstep]
+    rw [hw s.1]
+    exact h sl
+  | remove keep =>
+    intro sl
+    simp only [hstep]
+    rcases purge_ent (s.1.filter (fun c => !keep c)) s.2 sl with h0 | ⟨h1, h2⟩
+    · exact Or.inl h0
+    · rw [h1]
+      rcases h sl with h0 | hm
+      · exact Or.inl h0
+      · right
+        simp only [idsOf, List.mem_map, List.mem_filter] at hm h2 ⊢
+        obtain ⟨c, hc, hcid⟩ := hm
+        refine ⟨c, ⟨hc, ?_⟩, hcid⟩
+        cases hk : keep c
+        · exact absurd ⟨c, ⟨hc, by simp [hk]⟩, hcid⟩ h2
+        · rfl
+  | add c =>
+    intro sl
+    simp only [hstep]
+    rcases h sl with h0 | hm
+    · exact Or.inl h0
+    · right
+      simp only [idsOf, List.map_append, List.mem_append] at hm ⊢
+      exact Or.inl hm
+
+/-- **Invariant over every history with removal**: starting from an empty ring (or any state where the
+remembered ids are present), after any list of routings, link events, removals-with-purge and
+additions, every id the ring remembers is the id of a link that is still present. -/
+theorem C05_tracker_ids_present (s : Links × Tracker) (ops : List HOp) (h : TrkSub s.1 s.2)
+    (hw : ∀ op ∈ ops, hwf op) : TrkSub (ops.foldl hstep s).1 (ops.foldl hstep s).2 := by
+  induction ops generalizing s with
+  | nil => exact h
+  | cons op rest ih =>
+    simp only [List.foldl_cons]
+    exact ih _ (trkSub_step s op h (hw op (by simp))) (fun o ho => hw o (by simp [ho]))
+
+theorem trkSub_empty (ls : Links) : TrkSub ls Tracker.empty := fun _ => Or.inl rfl
+
+/-- A lookup hit names a present link: the hypothesis `hpos` of `C05_tracker_exclusive`,
+`C05_repeat_noop`, `C05_second_nak_noop`, `C05_nak_list_tracker_once` is discharged by the invariant. -/
+theorem C05_hit_is_present (ls : Links) (trk : Tracker) (n now cid : Nat) (h : TrkSub ls trk)
+    (hget : trk.get n now = some cid) :
+    ∃ pos c, ls.findIdx? (·.connId == cid) = some pos ∧ ls[pos]? = some c ∧ c.connId = cid := by
+  have hcid : cid ≠ 0 ∧ (trk.ent (slotOf n)).connId = cid := by
+    simp only [Tracker.get] at hget
+    split at hget
+    · rename_i hc; cases hget; exact ⟨hc.1, rfl⟩
+    · cases hget
+  have hm : cid ∈ idsOf ls := by
+    rcases h (slotOf n) with h0 | hm
+    · rw [hcid.2] at h0; exact absurd h0 hcid.1
+    · rw [hcid.2] at hm; exact hm
+  cases hf : ls.findIdx? (·.connId == cid) with
+  | none =>
+    simp only [idsOf, List.mem_map] at hm
+    obtain ⟨c, hc, hcc⟩ := hm
+    have := List.findIdx?_eq_none_iff.mp hf c hc
+    simp [hcc] at this
+  | some pos =>
+    obtain ⟨hlt, hp, -⟩ := List.findIdx?_eq_some_iff_getElem.mp hf
+    exact ⟨pos, ls[pos], rfl, List.getElem?_eq_getElem hlt, by simpa using hp⟩
+
+/-- **Tracker exclusivity along histories with link removal**: after ANY history from an empty ring,
+if the ring still remembers a carrier for `n`, that carrier is a present link `pos` and a NAK of `n`
+is charged to `pos` or to nobody — never to another holder, never to a removed link's successor at
+the same index. -/
+theorem C05_tracker_exclusive_history (ls0 : Links) (ops : List HOp) (hw : ∀ op ∈ ops, hwf op)
+    (n now cid : Nat) (hget : (ops.foldl hstep (ls0, Tracker.empty)).2.get n now = some cid) :
+    ∃ pos c, (ops.foldl hstep (ls0, Tracker.empty)).1[pos]? = some c ∧ c.connId = cid ∧
+      ((attributeNak (ops.foldl hstep (ls0, Tracker.empty)).1
+          (ops.foldl hstep (ls0, Tracker.empty)).2 n now).2 = none ∨
+       (attributeNak (ops.foldl hstep (ls0, Tracker.empty)).1
+          (ops.foldl hstep (ls0, Tracker.empty)).2 n now).2 = some pos) := by
+  have hinv := C05_tracker_ids_present (ls0, Tracker.empty) ops (trkSub_empty ls0) hw
+  obtain ⟨pos, c, hpos, hc, hcid⟩ := C05_hit_is_present _ _ n now cid hinv hget
+  exact ⟨pos, c, hc, hcid, C05_tracker_exclusive _ _ n now cid pos hget hpos⟩
+
+/-- Non-vacuity: route 7 over link 2 (id 22), then a reload removes link 2: the ring forgets 7 (the
+purge ran), so the NAK falls back to the scan and charges link 1 which holds a copy; without the
+removal the hit names position 1. -/
+example :
+    let s0 : Links × Tracker := ([exA, exB], Tracker.empty)
+    ([HOp.route 1 7 115].foldl hstep s0).2.get 7 200 = some 22 ∧
+    ([HOp.route 1 7 115, .remove (fun c => c.connId != 22)].foldl hstep s0).2.get 7 200 = none ∧
+    (([HOp.route 1 7 115, .remove (fun c => c.connId != 22)].foldl hstep s0).1.map (·.connId)) = [11] := by
+  decide
+
+
+/-! ## The ring in the sender shell: who writes it (tie to routing) -/
+
+section sys
+open Srtla.Sys Srtla.Link
+variable {F : Type} [Scalar F]
+
+/-- **The ring remembers the carrier of the unique copy, and only that.**  Over the shell model
+(`Model/Sys.lean`, run line by line against the real event-loop arms by component `sys`), for EVERY
+state and every client datagram, with `target` the link C01 proves receives the unique copy
+(`C01_exactly_one_unique_copy`):
+* routed to link `sel` and an SRT data packet with sequence number `sq`: afterwards
+  `last_selected_idx = sel` and the ring is the old ring with exactly one slot written,
+  `(sq, conn id of link sel, now)` — so a lookup of `sq` within 5000 ms names that link
+  (unless a colliding number displaces it: `C05_tracker_spec`);
+* control packet (no sequence number), empty datagram, or no usable link: the ring is unchanged;
+* the stall-probe copies `send_stall_probes` queues on OTHER links during the same event write
+  nothing (the function is not even handed the ring). -/
+theorem C05_tracker_records_unique_carrier (s : Sys F) (pkt : Sys.Bytes) (now : Nat) :
+    ((pkt.isEmpty = true ∨ target s pkt now = none) → (handleSrtPacket s pkt now).1.trk = s.trk) ∧
+    (∀ sel, pkt.isEmpty = false → target s pkt now = some sel →
+      ∃ l, s.links[sel]? = some l ∧ (handleSrtPacket s pkt now).1.lastSelected = some sel ∧
+        (handleSrtPacket s pkt now).1.trk =
+          (match Codec.getSrtSequenceNumberS pkt with
+           | some sq => s.trk.insert sq l.core.connId now
+           | none => s.trk) ∧
+        (∀ sq, Codec.getSrtSequenceNumberS pkt = some sq → l.core.connId ≠ 0 →
+          (handleSrtPacket s pkt now).1.trk.get sq now = some l.core.connId)) := by
+  obtain ⟨h1, h2⟩ := TrackerTie.handleSrtPacket_trk s pkt now
+  refine ⟨h1, fun sel hne ht => ?_⟩
+  obtain ⟨l, hl, hls, htrk⟩ := h2 sel hne ht
+  refine ⟨l, hl, hls, htrk, fun sq hsq hid => ?_⟩
+  rw [htrk, hsq]
+  have hage : ¬ (now - now > Seq.SEQUENCE_TRACKING_MAX_AGE_MS) := by
+    have := Seq.SEQUENCE_TRACKING_MAX_AGE_MS_eq; omega
+  unfold Tracker.get Tracker.insert
+  dsimp only
+  rw [if_pos rfl]
+  dsimp only
+  rw [if_pos ⟨hid, rfl, hage⟩]
+
+/-- **Nothing else writes the ring**: uplink datagrams (ACK / NAK / registration / keepalive echoes),
+periodic flushes, housekeeping (reconnects included) and configuration events leave it untouched. -/
+theorem C05_tracker_written_only_by_routing (s : Sys F) (e : Ev) (h : ∀ now pkt, e ≠ .client now pkt) :
+    (step s e).1.trk = s.trk :=
+  TrackerTie.step_trk_other s e h
+
+/-- **Shell invariant**: along every run of the shell from a state whose ring is empty (start-up), every
+id the ring remembers is the conn id of a link — so in `process_connection_events` a tracker hit always
+finds its link (`hpos` of `C05_tracker_exclusive` / `C05_repeat_noop` / `C05_nak_list_tracker_once`
+holds at every NAK the shell ever processes). -/
+theorem C05_sys_remembered_ids_present (s : Sys F) (evs : List Ev) (h0 : s.trk = Tracker.empty)
+    (n now cid : Nat) (hget : (KaTrace.runEvs s evs).trk.get n now = some cid) :
+    ∃ pos, (cores (KaTrace.runEvs s evs).links).findIdx? (·.connId == cid) = some pos := by
+  have hinv : TrackerTie.TrkSubSys (KaTrace.runEvs s evs) :=
+    TrackerTie.trkSubSys_run s evs (fun i => Or.inl (by rw [h0]; rfl))
+  have hsub : TrkSub (cores (KaTrace.runEvs s evs).links) (KaTrace.runEvs s evs).trk := by
+    intro i
+    rcases hinv i with h | ⟨l, hl, hc⟩
+    · exact Or.inl h
+    · right
+      simp only [idsOf, cores, List.map_map, List.mem_map]
+      exact ⟨l, hl, hc⟩
+  obtain ⟨pos, _, hpos, _, _⟩ := C05_hit_is_present _ _ n now cid hsub hget
+  exact ⟨pos, hpos⟩
+
+end sys
+
+/-- One connected, live link with conn id 7. -/
+def exSysLink : Link.FLink Int :=
+  letI := Select.fixScalar
+  { (Link.FLink.newRegistering 7 0 : Link.FLink Int) with
+      core := { connId := 7, connected := true, phase := .live, lastReceived := some 4900 },
+      established := 100 }
+
+/-- Non-vacuity of `C05_tracker_records_unique_carrier`: one connected link (conn id 7), the data packet
+with sequence number 9 is routed to it at 5000; the ring then names 7 for 9 until 10000 inclusive. -/
+example :
+    let s : Srtla.Sys.Sys Int := { links := [exSysLink], reg := Reg.Reg.new [] [] }
+    let pkt : Srtla.Sys.Bytes := [0, 0, 0, 9, 0, 0, 0, 0]
+    @Srtla.Sys.target Int Select.fixScalar s pkt 5000 = some 0 ∧
+    Codec.getSrtSequenceNumberS pkt = some 9 ∧
+    (@Srtla.Sys.handleSrtPacket Int Select.fixScalar s pkt 5000).1.trk.get 9 10000 = some 7 ∧
+    (@Srtla.Sys.handleSrtPacket Int Select.fixScalar s pkt 5000).1.trk.get 9 10001 = none ∧
+    (@Srtla.Sys.handleSrtPacket Int Select.fixScalar s pkt 5000).1.lastSelected = some 0 := by
+  decide +kernel
 
 end Srtla.Props.C05
